@@ -329,7 +329,7 @@ class AsyncBaseClient:
             payload["payload"]["variables"] = self._convert_dict_to_json_serializable(
                 variables
             )
-        await websocket.send(json.dumps(payload))
+        await websocket.send(json.dumps(payload, default=to_jsonable_python))
 
     async def _handle_ws_message(
         self,
